@@ -104,7 +104,7 @@ PROPS["C19"] = {
     "theorems": lambda: module_theorems("JediVerif.Properties.C19", "Jedi.C19"),
     "streams": lambda seed, tier: [
         {"cfg": c, "name": "capi", "kind": "selfcheck", "lines": gen("capi", seed, 6 if tier == "quick" else 30, tier)}
-        for c in cfgs(tier, ["asm", "portable32"], ["asm", "asm+nobmi2", "portable64", "portable32", "asan"])],
+        for c in cfgs(tier, ["asm", "portable64", "portable32"], ["asm", "asm+nobmi2", "portable64", "portable32", "asan"])],
     "rule": "each line calls one C function and the C++ operation it wraps on the same arguments inside the harness; EQ/NE verdict; distinct = distinct op lines",
     "not_modelled": "Go bindings (no Go toolchain): read, not executed; cross-target layouts (thumbv6m/aarch64) not extracted",
 }
